@@ -10,6 +10,9 @@ use alloc::vec::Vec;
 use core::fmt::{Debug, Formatter};
 use core::ops::{Index, IndexMut};
 
+#[cfg(feature = "verif-hooks")]
+mod verif;
+
 #[derive(Clone)]
 pub(crate) struct CountMinRow(Vec<u8>);
 
